@@ -410,10 +410,11 @@ func checkVectorEnv(shape int, argv []string, env map[string]string) (msg string
 
 var goodValues = map[string][]string{
 	"bool":     {"true", "false", "1", "0", "T", "f", "TRUE", ""},
-	"int":      {"0", "42", "-7", "9223372036854775807", "-9223372036854775808", "+5", ""},
-	"int64":    {"0", "42", "-7", "9223372036854775807", "-9223372036854775808", ""},
-	"uint":     {"0", "42", "18446744073709551615", ""},
-	"uint64":   {"0", "42", "18446744073709551615", ""},
+	// integer texts are read like Go literals, as the flag package reads them: 0x, 0o, 0b, a leading 0, underscores
+	"int":      {"0", "42", "-7", "9223372036854775807", "-9223372036854775808", "+5", "", "0x10", "-0x8", "0b101", "0o17", "017", "0644", "-010", "1_000", "0X1f"},
+	"int64":    {"0", "42", "-7", "9223372036854775807", "-9223372036854775808", "", "0x7fffffffffffffff", "0777", "0b1", "1_0"},
+	"uint":     {"0", "42", "18446744073709551615", "", "0xffffffffffffffff", "010", "0o7", "0b11"},
+	"uint64":   {"0", "42", "18446744073709551615", "", "0xff", "0644", "1_000_000"},
 	"string":   {"", "v", "a=b", "=", "-n", "--", "-", "x y", "é", "--name=v", "\x00", "\xff\xfe", "a,b|c", "\"q\"", "'q'", "\"\"", "''", "\"", "'", "\"a'", "`x`", "$HOME", "%s", "a\\b"},
 	"float64":  {"0", "1.5", "-2e10", "NaN", "Inf", "-Inf", "1e-320", "", ".5"},
 	"duration": {"0", "1s", "1h2m3.5s", "-5ms", "", "2562047h47m16.854775807s"},
@@ -422,7 +423,7 @@ var goodValues = map[string][]string{
 
 var badValues = map[string][]string{
 	"bool":     {"yes", "2", "tru", " true", "-d", "\"true\"", "'1'"},
-	"int":      {"abc", "1.5", "9223372036854775808", "--", "-", "1 ", "0x", "\"5\"", "'5'", "\"\""},
+	"int":      {"abc", "1.5", "9223372036854775808", "--", "-", "1 ", "0x", "\"5\"", "'5'", "\"\"", "08", "09", "1__0", "_1", "1_", "0b2"},
 	"int64":    {"abc", "1e3", "-9223372036854775809", "-n"},
 	"uint":     {"-1", "abc", "18446744073709551616", "+-1"},
 	"uint64":   {"-1", "abc", "18446744073709551616"},
